@@ -336,15 +336,27 @@ Section WithMatcher.
 
 Variable gmatch : str -> str -> bool.   (* pattern -> path -> does the stored regex fullmatch *)
 
+(* Two facts about the code that the translator reads from the source (gen/GenClaims.v:
+   owner_appends_slash, glob_scans_products), so that the same model follows the code across the
+   fixes of D14 and D3:
+   ow = true : _find_owning_static_tree probes `Path(path) / ""` (path plus separator);
+        false: it probes the path itself, the same test as the scan of register_static_tree.
+   gr = true : register_nglob tests the stored regex against every attached product;
+        false: it only looks up the recorded matches. *)
+Variable ow : bool.
+Variable gr : bool.
+
+Definition probe (p : str) : str := if ow then with_slash p else p.
+
 (* Workflow._find_owning_static_tree *)
 Definition owners (st : state) (p : str) : list (str * creator) :=
-  filter (fun tc => is_prefix (fst tc) (with_slash p)) (trees st).
+  filter (fun tc => is_prefix (fst tc) (probe p)) (trees st).
 
 Definition find_owner (st : state) (p : str) : res (option (str * creator)) :=
   match owners st p with
   | [] => Ok None
   | [tc] => Ok (Some tc)
-  | _ => Err (MMultiTrees (with_slash p))
+  | _ => Err (MMultiTrees (probe p))
   end.
 
 (* The declaring party of _check_declaration: a node of the graph or only a phrase. *)
@@ -482,7 +494,10 @@ Fixpoint first_product (st : state) (ms : list str) : option (str * claim) :=
 Definition register_glob (s pat : str) (ms : list str) (st : state) : res state :=
   bind (require_step st (CStep s)) (fun _ =>
   let ms' := sort_uniq (filter (gmatch pat) ms) in
-  match first_product st ms' with
+  match (if gr
+         then min_entry (filter (fun pc => negb (role_eqb (c_role (snd pc)) RStatic)
+                                           && gmatch pat (fst pc)) (claims st))
+         else first_product st ms') with
   | Some (p, cl) => Err (MGlobProduct pat s p (creator_label (c_by cl)))
   | None =>
       match find_first (is_prefix stepup_prefix) ms' with
